@@ -910,12 +910,7 @@ class Sim:
     def durable_copy(self, f):
         if self.flavour == "text":
             return self.S.File.deserialize(f.serialize())
-        import msgpack
-
-        from biotite.structure.io.pdbx.bcif import _encode_numpy
-
-        return self.S.File.deserialize(msgpack.unpackb(msgpack.packb(f.serialize(), use_bin_type=True, default=_encode_numpy),
-                                                       use_list=True, raw=False))
+        return self.S.File.deserialize(self.pack(f.serialize()))
 
     def restart_failed(self, exc, how):
         if self.store_valid():
@@ -1061,6 +1056,14 @@ class Sim:
         return "ok"
 
     def pack(self, content):
+        """The way from serialize() to deserialize() for the binary flavour: every second time through MessagePack
+        bytes (what write()/read() do; the new container gets objects of its own), otherwise the object returned by
+        serialize() is handed to deserialize() as it is - the documented pairing of the two methods. In the direct case
+        the two containers share every element that was still serialised; none of them may change it."""
+        self.packs = getattr(self, "packs", 0) + 1
+        if self.packs % 2 == 0:
+            self.res.stats["medium:direct-serialize-deserialize"] += 1
+            return content
         import msgpack
 
         from biotite.structure.io.pdbx.bcif import _encode_numpy
